@@ -4,14 +4,14 @@ from ..qcheck import mk_case, run_cases
 from ..common import dec_val, canon
 
 MODULE = "Genql.Properties.C06"
-LEAN_TARGETS = [MODULE, "Genql.Properties.Pipeline", "Genql.Properties.C06Model"]
+LEAN_TARGETS = [MODULE, "Genql.Properties.Pipeline", "Genql.Properties.C06Model", "Genql.Properties.UnionModel"]
 THEOREMS = ["Genql.C06." + t for t in [
     "dedupLoop_eq_spec", "dedup_first_occurrence", "dedup_sublist", "dedup_nodup", "dedup_mem_iff", "dedup_idempotent",
     "union_all_append", "union_dedup", "union_chain_assoc", "union_mixed", "union_limit_outermost"]] + \
     ["Genql.Pipeline." + t for t in ["select_pipeline", "select_filter_project", "select_distinct"]] + \
     ["Genql.ValEqEquiv." + t for t in ["valEq_refl", "valEq_symm", "valEq_trans", "subset_of_nodup_length"]] + \
     ["Genql.C06." + t for t in ["sameWF_equiv", "dedupBy_val", "distinct_model_first_occurrence", "distinct_model_idempotent",
-                               "setKey_nodup"]]
+                               "setKey_nodup", "union_model", "union_all_model"]]
 TRUSTED = ["fmt %#v renders JSON-like rows injectively (keys sorted, strings quoted) and SHA-256 is collision free: the Go "
            "fingerprint identifies exactly equal rows; probed with adversarial strings", "sqlparser"]
 RULE = ("tables with controlled duplication (values from 2-3 element pools, adversarial strings such as '1 s:x', nested objects) x "
@@ -110,7 +110,8 @@ LEVEL_TEXT = ("Lean theorems: the seen-set scan of ExecDistinct keeps exactly th
               "runs on ALL projected rows, before ORDER BY and the window (select_pipeline, select_distinct), and the relation it "
               "deduplicates by - valEq: structural equality with objects compared as maps - is proved to be an equivalence on "
               "well-formed values (valEq_refl/symm/trans, sameWF_equiv), so the theorems above hold of the model's stage itself "
-              "(distinct_model_first_occurrence, distinct_model_idempotent). "
+              "(distinct_model_first_occurrence, distinct_model_idempotent); a UNION [ALL] node of the model evaluates to unionRows "
+              "of its sides' rows, then ORDER BY, then the window (union_model). "
               "Correspondence with adversarial rows.")
 LEVEL_NOTE = ("The Go fingerprint is fmt %#v + SHA-256; that it identifies exactly equal rows is trusted (contract of fmt, collision "
               "freedom) and probed by adversarial strings; the theorem is about the scan for any equivalence-respecting `same`.")
